@@ -35,6 +35,13 @@ const HARD_CAP: usize = 4 << 30;
 const ALLOC_FLOOR: usize = 64 << 20;
 const ALLOC_FACTOR: usize = 1024;
 const ITEM_TIMEOUT_MS: u64 = 60_000;
+/// after this many watchdog deaths of one worker slot the remaining items of that slot get the
+/// short timeout (a defect that hangs on thousands of inputs must not cost a minute each)
+const FULL_TIMEOUT_HANGS: u64 = 3;
+const SHORT_TIMEOUT_MS: u64 = 10_000;
+/// mc-core's own watchdog reads the wall clock (a clock step fires it); it is kept as a distant
+/// backstop only and the monotonic watchdog below decides
+const BACKSTOP_TIMEOUT_MS: u64 = 15 * 60_000;
 const NCOUNTERS: usize = 6; // inputs, accepted, rejected, panics, honest_ok, flagged
 const INLINE_INPUT_LIMIT: usize = 2 << 20;
 
@@ -161,6 +168,40 @@ fn side_file(progress: &Path, what: &str, start: u64) -> PathBuf {
 // worker
 // ------------------------------------------------------------------------------------------------
 
+/// start of the item in progress, in ms since `CLOCK_BASE` (+1; 0 = no item in progress)
+static ITEM_T0_MS: std::sync::atomic::AtomicU64 = std::sync::atomic::AtomicU64::new(0);
+static CLOCK_BASE: std::sync::OnceLock<std::time::Instant> = std::sync::OnceLock::new();
+
+fn mono_ms() -> u64 {
+    CLOCK_BASE.get_or_init(std::time::Instant::now).elapsed().as_millis() as u64
+}
+
+fn item_started() {
+    ITEM_T0_MS.store(mono_ms() + 1, std::sync::atomic::Ordering::Relaxed);
+}
+
+/// Monotonic per-item watchdog. Exits with 97 like mc-core's, so the parent records a hang at the
+/// published index. The number of earlier hangs of this worker slot is kept next to its progress file.
+fn start_watchdog(slot_progress: Option<&Path>) {
+    let hang_file = slot_progress.map(|p| PathBuf::from(format!("{}.hangs", p.display())));
+    let earlier: u64 = hang_file.as_ref().and_then(|f| std::fs::read_to_string(f).ok()).and_then(|s| s.trim().parse().ok()).unwrap_or(0);
+    let timeout = if earlier < FULL_TIMEOUT_HANGS { ITEM_TIMEOUT_MS } else { SHORT_TIMEOUT_MS };
+    let _ = mono_ms();
+    std::thread::spawn(move || {
+        loop {
+            std::thread::sleep(std::time::Duration::from_millis(100));
+            let t0 = ITEM_T0_MS.load(std::sync::atomic::Ordering::Relaxed);
+            if t0 != 0 && mono_ms() + 1 > t0 + timeout {
+                if let Some(f) = &hang_file {
+                    let _ = std::fs::write(f, format!("{}", earlier + 1));
+                }
+                eprintln!("watchdog: the item in progress did not return within {timeout} ms");
+                std::process::exit(97);
+            }
+        }
+    });
+}
+
 fn worker(ctx: &Ctx, args: WorkerArgs) -> ! {
     isolate::HARD_CAP.store(HARD_CAP, std::sync::atomic::Ordering::Relaxed);
     let tier = ctx.tier;
@@ -172,7 +213,9 @@ fn worker(ctx: &Ctx, args: WorkerArgs) -> ! {
             if let Some(path) = replay {
                 let bytes = std::fs::read(&path).expect("replay input");
                 let decoder = decoders::index_of(&std::env::var("C05_REPLAY_DECODER").expect("decoder")).expect("known decoder");
-                args.run(1, ITEM_TIMEOUT_MS, |_| {
+                start_watchdog(None);
+                args.run(1, BACKSTOP_TIMEOUT_MS, |_| {
+                    item_started();
                     let v = judge(decoder, &bytes, None);
                     Some(json!({"c": v.class, "msg": v.msg, "loc": v.loc, "maxreq": v.max_request, "accepted": v.accepted}).to_string())
                 });
@@ -187,7 +230,9 @@ fn worker(ctx: &Ctx, args: WorkerArgs) -> ! {
             let profile = std::env::var_os("C05_PROFILE").is_some();
             let mut prof: BTreeMap<String, (u64, f64, f64)> = BTreeMap::new();
             let (total, step) = (sp.total, args.nworkers);
-            args.run(sp.total, ITEM_TIMEOUT_MS, |i| {
+            start_watchdog(Some(&args.progress));
+            args.run(sp.total, BACKSTOP_TIMEOUT_MS, |i| {
+                item_started();
                 let t0 = std::time::Instant::now();
                 let inp = sp.input(i);
                 let t1 = std::time::Instant::now();
@@ -262,7 +307,7 @@ fn replay_value(decoder: &str, site: &str, bytes: &[u8], tier: &str, index: Opti
 
 fn death_class(status: &str, stderr: &str) -> (&'static str, String) {
     if status.starts_with("hang") {
-        ("hang", format!("did not return within {} s (watchdog)", ITEM_TIMEOUT_MS / 1000))
+        ("hang", format!("did not return in time (watchdog): {}", stderr.trim()))
     } else if stderr.contains("memory allocation of") {
         ("disproportionate-allocation", format!("aborted the process: {}", stderr.trim()))
     } else if stderr.contains("overflowed its stack") || status == "signal 11" {
@@ -297,6 +342,8 @@ fn base_report(ctx: &Ctx) -> Report {
             "stack_bytes": STACK_BYTES,
             "max_single_allocation": format!("max({} MiB, {} x input length); requests above {} GiB are refused (abort)", ALLOC_FLOOR >> 20, ALLOC_FACTOR, HARD_CAP >> 30),
             "per_input_timeout_ms": ITEM_TIMEOUT_MS,
+            "per_input_timeout_after_3_hangs_of_a_worker_ms": SHORT_TIMEOUT_MS,
+            "hang_confirmation": "a watchdog death is re-run alone (full timeout) and reported only if it does not return again",
             "round_trip": "decode(encode(honest value)) re-encodes to the bytes of the original value, for every accepted form",
             "overflow_checks": "on (arithmetic overflow panics; reported under C05/arithmetic-overflow:*)",
         }),
@@ -311,6 +358,18 @@ fn base_report(ctx: &Ctx) -> Report {
     rep.assume("decoding runs on an 8 MiB stack (Linux main-thread default); a single allocation request is 'out of proportion' above max(64 MiB, 1024 x input length)");
     rep.assume("third-party decoders (ciborium, bincode, serde_json, hex, blst, ed25519-dalek, kes-summed-ed25519) are exercised only through the Mithril entry points");
     rep
+}
+
+/// run one input alone in a fresh worker process (replays, confirmation of watchdog deaths)
+fn run_alone(ctx: &Ctx, decoder: &str, bytes: &[u8]) -> isolate::SweepResult {
+    let f = ctx.scratch().join("single-input.bin");
+    std::fs::write(&f, bytes).expect("write single input");
+    // the child reads the case from the environment (no other thread of this process is running)
+    unsafe {
+        std::env::set_var("C05_REPLAY_INPUT", &f);
+        std::env::set_var("C05_REPLAY_DECODER", decoder);
+    }
+    isolate::run_sweep(ctx, "replay", 1, 1, 1)
 }
 
 fn replay(ctx: &Ctx, path: &Path) -> ! {
@@ -336,15 +395,7 @@ fn replay(ctx: &Ctx, path: &Path) -> ! {
             sp.input(idx).bytes
         }
     };
-    let scratch = ctx.scratch();
-    let f = scratch.join("replay-input.bin");
-    std::fs::write(&f, &bytes).expect("write replay input");
-    // the child reads the case from the environment (safe: set before any thread is started)
-    unsafe {
-        std::env::set_var("C05_REPLAY_INPUT", &f);
-        std::env::set_var("C05_REPLAY_DECODER", &decoder);
-    }
-    let res = isolate::run_sweep(ctx, "replay", 1, 1, 1);
+    let res = run_alone(ctx, &decoder, &bytes);
     rep.eval();
     rep.nontrivial(&0u8);
     rep.nontrivial(&1u8);
@@ -475,10 +526,7 @@ pub fn run(ctx: &Ctx) -> ! {
         rep.outcome_n("panicked", pan);
     }
     let real_deaths: Vec<_> = res.deaths.iter().filter(|d| d.index != u64::MAX).collect();
-    if !real_deaths.is_empty() {
-        rep.outcome_n("process-died", real_deaths.len() as u64);
-        rep.evaluations += real_deaths.len() as u64;
-    }
+    rep.evaluations += real_deaths.len() as u64;
     rep.add_extra("honest_round_trips_ok", counters.iter().map(|c| c[4]).sum());
     for d in res.deaths.iter().filter(|d| d.index == u64::MAX) {
         rep.machinery_error(format!("a worker died outside an item ({}): {}", d.status, d.stderr_tail));
@@ -525,10 +573,41 @@ pub fn run(ctx: &Ctx) -> ! {
             bytes: if inp.bytes.len() <= 4096 { inp.bytes } else { vec![] },
         });
     }
+    // A watchdog death is the only timing-dependent verdict (the watchdog reads the wall clock, and
+    // the machine is shared): it is re-run alone and reported only when it does not return again.
+    let (mut confirmations, mut reproduced) = (0usize, 0usize);
+    let mut spurious = 0u64;
     for d in real_deaths {
         let inp = sp.input(d.index);
+        if d.status.starts_with("hang") && (confirmations < 16 || reproduced == 0) {
+            confirmations += 1;
+            let again = run_alone(ctx, DECODERS[inp.seg.decoder].name, &inp.bytes);
+            if !again.deaths.is_empty() {
+                reproduced += 1;
+            } else {
+                spurious += 1;
+                // the verdict of the re-run stands for this input
+                for (_, line) in &again.lines {
+                    let l: Value = serde_json::from_str(line).unwrap_or(Value::Null);
+                    rep.outcome(if l["accepted"].as_bool() == Some(true) { "accepted" } else { "rejected" });
+                    if let Some(class) = l["c"].as_str() {
+                        let loc = l["loc"].as_str().unwrap_or("");
+                        let site = site_from_location(loc).unwrap_or(inp.site().to_string());
+                        findings.push(Finding {
+                            key: format!("C05/{class}:{site}"),
+                            bytes_len: inp.bytes.len(),
+                            what: describe(d.index, &inp, &format!("{} at {loc}", l["msg"].as_str().unwrap_or(""))),
+                            replay: replay_value(DECODERS[inp.seg.decoder].name, &site, &inp.bytes, tier, Some(d.index)),
+                            bytes: vec![],
+                        });
+                    }
+                }
+                continue;
+            }
+        }
         let (class, what) = death_class(&d.status, &d.stderr_tail);
         let site = inp.site().to_string();
+        rep.outcome(if class == "hang" { "did-not-return" } else { "process-died" });
         findings.push(Finding {
             key: format!("C05/{class}:{site}"),
             bytes_len: inp.bytes.len(),
@@ -539,6 +618,9 @@ pub fn run(ctx: &Ctx) -> ! {
     }
     if !locations.is_empty() {
         rep.extra("panic_locations", json!(locations));
+    }
+    if spurious > 0 {
+        rep.extra("watchdog_deaths_not_reproduced_when_run_alone", json!(spurious));
     }
     // smallest input first within each key
     findings.sort_by(|a, b| (&a.key, a.bytes_len, &a.bytes).cmp(&(&b.key, b.bytes_len, &b.bytes)));
